@@ -139,6 +139,15 @@ def body_cli(case, rec):
                 outs.extend(sc)
                 if ".haplotigs." in f.name or ".additional_haplotigs." in f.name:
                     hap_objects = len(sc)
+        # Two scaffolds of one name in one output file (known finding KF-C10-1: tagged pieces named after their
+        # chromosome tag) are read back as ONE object, which invents an adjacency: such runs cannot be judged from files
+        try:
+            api = remap.run_api(case)
+            if any(len({s_.name for s_ in a.scaffolds}) != len(list(a.scaffolds)) for a in api.assemblies.values()):
+                rec.note(case, False, {"duplicate_names_in_an_output_file_not_judged"})
+                return
+        except Exception:  # noqa: BLE001
+            pass
         exp = expected_counts(case, outs)
         cl = classify(case, outs, exp) | {"cli"}
         if hap_objects:
